@@ -4,23 +4,23 @@ import copy
 
 # ----------------------------------------------------------------- fixed tables
 
-COLS = [["k", "int"], ["f", "float"], ["g", "float"], ["s", "str"], ["i", "int"], ["b", "bool"], ["rid", "int"]]
+COLS = [["k", "int"], ["f", "float"], ["g", "float"], ["s", "str"], ["i", "int"], ["b", "bool"], ["rid", "int"], ["m", "int"]]  # m: sorted with a long run of duplicates
 ROWS_A = [
-    [1, 0.5, 3.0, "a", 0, True, 0],
-    [2, None, 1.0, "b", 1, False, 1],
-    [1, 1.5, None, None, 2, True, 2],
-    [3, -1.0, 2.5, "a", 3, False, 3],
-    [2, 2.0, -2.0, "c", 4, True, 4],
-    [0, None, 0.5, "b", 5, True, 5],
-    [3, 3.0, 4.0, "dd", 6, False, 6],
-    [1, -0.5, -1.5, "a", 7, True, 7],
+    [1, 0.5, 3.0, "a", 0, True, 0, 0],
+    [2, None, 1.0, "b", 1, False, 1, 0],
+    [1, 1.5, None, None, 2, True, 2, 1],
+    [3, -1.0, 2.5, "a", 3, False, 3, 1],
+    [2, 2.0, -2.0, "c", 4, True, 4, 1],
+    [0, None, 0.5, "b", 5, True, 5, 1],
+    [3, 3.0, 4.0, "dd", 6, False, 6, 2],
+    [1, -0.5, -1.5, "a", 7, True, 7, 3],
 ]
 ROWS_B = [
-    [1, 1.0, 0.0, "a", 10, True, 0],
-    [1, 2.5, 1.0, "c", 11, False, 1],
-    [4, None, 2.0, "b", 12, True, 2],
-    [2, 0.5, None, None, 13, False, 3],
-    [0, -2.0, 3.5, "a", 14, True, 4],
+    [1, 1.0, 0.0, "a", 10, True, 0, 0],
+    [1, 2.5, 1.0, "c", 11, False, 1, 1],
+    [4, None, 2.0, "b", 12, True, 2, 1],
+    [2, 0.5, None, None, 13, False, 3, 2],
+    [0, -2.0, 3.5, "a", 14, True, 4, 2],
 ]
 
 
@@ -161,6 +161,7 @@ def _templates():
     add("sort-na-first", [S("v1", "sort_values", ["A"], by=["f", "rid"], ascending=True, na_position="first")])
     add("set_index-proj", [S("v1", "set_index", ["A"], col="i", drop=True), S("v2", "cols", ["v1"], cols=["f", "k"])])
     add("set_index-head", [S("v1", "set_index", ["A"], col="rid", drop=False), S("v2", "head", ["v1"], n=3, npartitions=1, how="head")])
+    add("set_index-sorted", [S("v1", "set_index", ["A"], col="m", drop=True, sorted=True), S("v2", "cols", ["v1"], cols=["f", "k"])])
     add("set_index-assign", [S("v1", "set_index", ["A"], col="rid", drop=True), S("v2", "assign", ["v1"], items=[["y", {"const": 1}], ["z", {"a": "f", "op": "sub", "red": "max"}]])])
     add("shuffle-sum", [S("v1", "shuffle", ["A"], on="k", npartitions=2), S("v2", "col", ["v1"], col="f"), S("v3", "reduce", ["v2"], how="sum", split_every=None)])
     add("shuffle-proj", [S("v1", "shuffle", ["A"], on="s", npartitions=None), S("v2", "cols", ["v1"], cols=["f", "rid"])])
